@@ -289,6 +289,8 @@ def _mesh_line_hits(tri, P, d):
 # ----------------------------------------------------------------------------------
 class Oracle:
     proj_tol = 1e-6
+    judge_metric = True  # distanceTo / AABB / size / dimensionality are specified
+    judge_rel = True  # intersects / containsRegion are specified
 
     dim = 3
     plane_z = None
@@ -634,16 +636,21 @@ class RectO(PlanarO):
         return 4 * self.hw * self.hl
 
 
-class GridO(PlanarO):
-    """Obstacle grid: a point belongs iff its nearest grid point is free; planar at z=0."""
+class GridO(Oracle):
+    """Obstacle grid.  The documentation defines membership only: "a point is considered
+    to be in a GridRegion if the nearest grid point is not an obstacle" - which does not
+    depend on z, so the member set is a column of cells.  Distance / AABB / size /
+    dimensionality of the library refer to the discrete grid points instead and are not
+    judged (judge_metric = False)."""
 
-    z_locked = True
+    dim = 3
+    judge_metric = False
+    judge_rel = False  # intersects / containsRegion of the library work on the grid points
 
     def __init__(self, spec):
         super().__init__(spec)
         self.g = np.array(spec["grid"])
         self.Ax, self.Ay, self.Bx, self.By = (float(spec[k]) for k in ("Ax", "Ay", "Bx", "By"))
-        self.plane_z = 0.0
         self.ny, self.nx = self.g.shape
 
     def _cell(self, Q):
@@ -651,7 +658,8 @@ class GridO(PlanarO):
         fy = (Q[:, 1] - self.By) / self.Ay
         return fx, fy
 
-    def member2(self, Q):
+    def member(self, P):
+        Q = np.asarray(P, float)
         fx, fy = self._cell(Q)
         ix, iy = np.floor(fx + 0.5).astype(int), np.floor(fy + 0.5).astype(int)
         ok = (ix >= 0) & (ix < self.nx) & (iy >= 0) & (iy < self.ny)
@@ -659,35 +667,20 @@ class GridO(PlanarO):
         free[ok] = self.g[iy[ok], ix[ok]] == 0
         return free
 
-    def bdist2(self, Q):
+    def clear(self, P):
         # distance to the nearest cell border (conservative: every border counts)
-        fx, fy = self._cell(Q)
+        fx, fy = self._cell(np.asarray(P, float))
         dx = np.abs((fx + 0.5) - np.round(fx + 0.5)) * self.Ax
         dy = np.abs((fy + 0.5) - np.round(fy + 0.5)) * self.Ay
         return np.minimum(dx, dy)
 
-    def dist2(self, Q):
-        out = np.full(len(Q), INF)
-        for iy in range(self.ny):
-            for ix in range(self.nx):
-                if self.g[iy, ix] != 0:
-                    continue
-                cx, cy = self.Bx + ix * self.Ax, self.By + iy * self.Ay
-                qx = np.maximum(np.abs(Q[:, 0] - cx) - self.Ax / 2, 0)
-                qy = np.maximum(np.abs(Q[:, 1] - cy) - self.Ay / 2, 0)
-                out = np.minimum(out, np.hypot(qx, qy))
-        return out
-
-    def aabb2(self):
+    def aabb(self):
         ys, xs = np.where(self.g == 0)
-        lo = np.array([self.Bx + (xs.min() - 0.5) * self.Ax, self.By + (ys.min() - 0.5) * self.Ay])
-        hi = np.array([self.Bx + (xs.max() + 0.5) * self.Ax, self.By + (ys.max() + 0.5) * self.Ay])
+        lo = np.array([self.Bx + (xs.min() - 0.5) * self.Ax, self.By + (ys.min() - 0.5) * self.Ay, -INF])
+        hi = np.array([self.Bx + (xs.max() + 0.5) * self.Ax, self.By + (ys.max() + 0.5) * self.Ay, INF])
         return lo, hi
 
-    def size(self):
-        return None
-
-    def free_points(self):
+    def on_probes(self):
         ys, xs = np.where(self.g == 0)
         return np.stack([self.Bx + xs * self.Ax, self.By + ys * self.Ay, np.zeros(len(xs))], axis=1)
 
@@ -750,10 +743,12 @@ class LinesO(Oracle):
         return np.where(d <= self.tol, 0.0, d)
 
     def clear(self, P):
+        # the library tests membership of polylines with exact predicates: only probes
+        # lying exactly (d == 0 in floating point) on a segment count as clear members
         d = self._d(P)
         P = np.asarray(P, float)
         dv = np.linalg.norm(P[:, None, :] - self.verts[None], axis=2).min(axis=1)
-        return np.where(d <= self.tol, dv, d)
+        return np.where(d == 0.0, dv, np.where(d <= self.tol, 0.0, d))
 
     def aabb(self):
         return self.verts.min(axis=0), self.verts.max(axis=0)
